@@ -11,7 +11,7 @@ RULE = ("Cases: (exhaustive) every sequence of length 3..7 (quick) / 3..9 (thoro
         "get_padded_extrema for pad_width 0..5 x parabolic on/off x {peaks,troughs,abs_peaks} (36 calls) and "
         "interp_envelope for pad_width 1..5 x parabolic on/off x {upper,lower,combined} x {splrep,pchip,mono_pchip} "
         "(90 calls); (random) Hypothesis signals up to 300 samples from all families (ties, plateaus, edge plateaus) "
-        "with drawn pad width, custom np.pad option dicts from the tutorials, refinement and method. Oracle: None iff "
+        "with drawn pad width, memory layout (contiguous / strided view / read-only), custom np.pad option dicts from the tutorials, refinement and method. Oracle: None iff "
         "<2 strict extrema of the kind; interior extrema == strict local maxima/minima (parabola vertex within +-1 "
         "sample when refined); locations strictly increasing, first <0 and last >=N when padded; whole vectors == "
         "np.pad of the interior with the given options; envelope has N values equal (1e-9) to the interpolant "
@@ -23,6 +23,11 @@ ASSUMPTIONS = ["scipy splrep/splev and PchipInterpolator are the trusted interpo
 MODES_X = ['peaks', 'troughs', 'abs_peaks']
 MODES_E = {'upper': 'peaks', 'lower': 'troughs', 'combined': 'abs_peaks'}
 METHODS = ['splrep', 'pchip', 'mono_pchip']
+
+
+def _arg(x):
+    """What is handed to the routine: a fresh copy for ordinary arrays, the array itself when its memory layout is the point."""
+    return x if (not x.flags['C_CONTIGUOUS'] or not x.flags.writeable) else x.copy()
 
 
 def check_extrema(emd, x, mode, pad, par, lpo, mpo, rec):
@@ -40,7 +45,7 @@ def check_extrema(emd, x, mode, pad, par, lpo, mpo, rec):
     except Exception as e:   # np.pad rejects the option set
         ref_err = e
     try:
-        locs, mags = emd.sift.get_padded_extrema(x.copy(), pad_width=pad, mode=mode, parabolic_extrema=par, **kw)
+        locs, mags = emd.sift.get_padded_extrema(_arg(x), pad_width=pad, mode=mode, parabolic_extrema=par, **kw)
     except Exception as e:
         if ref_err is not None:
             rec.cls('np.pad-rejects-options')
@@ -110,7 +115,7 @@ def check_envelope(emd, x, which, method, pad, par, lpo, mpo, rec):
         ref_err = e
     eo0 = {k: (dict(v) if isinstance(v, dict) else v) for k, v in eo.items()}
     try:
-        out = emd.sift.interp_envelope(x.copy(), mode=which, interp_method=method, extrema_opts=eo, ret_extrema=True)
+        out = emd.sift.interp_envelope(_arg(x), mode=which, interp_method=method, extrema_opts=eo, ret_extrema=True)
     except Exception as e:
         if ref_err is not None or pad == 0:
             rec.cls('clean-exception(pad=0 or np.pad/scipy rejects)')
@@ -188,7 +193,8 @@ def random_case(draw):
     return {'sig': sig, 'pad': draw(st.integers(0, 5)), 'par': draw(st.booleans()),
             'mode': draw(st.sampled_from(MODES_X)), 'which': draw(st.sampled_from(sorted(MODES_E))),
             'method': draw(st.sampled_from(METHODS)), 'mpo': draw(st.sampled_from(MAG_OPTS)),
-            'lpo': draw(st.sampled_from(LOC_OPTS)), 'two_d': draw(st.booleans())}
+            'lpo': draw(st.sampled_from(LOC_OPTS)), 'two_d': draw(st.booleans()),
+            'layout': draw(st.sampled_from(gens.LAYOUTS))}
 
 
 def oracle_random(case, rec):
@@ -196,6 +202,8 @@ def oracle_random(case, rec):
     x = gens.sig_of(case['sig'])
     if not np.all(np.isfinite(x)):
         raise Discard('non-finite')
+    x = gens.relayout(x, case.get('layout', 'C'))     # the routines receive x.copy() - see below - or the view itself
+    rec.cls('layout=' + case.get('layout', 'C'))
     nt = max(check_extrema(emd, x, case['mode'], case['pad'], case['par'], case['lpo'], case['mpo'], rec), 0)
     nt += check_envelope(emd, x, case['which'], case['method'], max(case['pad'], 1), case['par'], case['lpo'], case['mpo'], rec)
     if case['pad'] == 0:
